@@ -53,7 +53,7 @@ SPEC = {
     "id": "C10",
     "coq_props": ["Properties/C10.v", "Corr/C10.v"],
     "module": "MS.Properties.C10",
-    "theorems": ["C10_mono", "C10_mono_raw", "C10_1sec_blocks", "C10_models_equal", "C10_1sec_blocks_flocq", "C10_whole_seconds", "C10_enc_accuracy_partial", "C10_enc_position_partial", "C10_dec_fs_accuracy_partial"],
+    "theorems": ["C10_mono", "C10_mono_raw", "C10_1sec_blocks", "C10_models_equal", "C10_1sec_blocks_flocq", "C10_whole_seconds", "C10_enc_accuracy_partial", "C10_enc_position_partial", "C10_dec_fs_accuracy_partial", "C10_dec_total_partial", "C10_roundtrip_partial"],
     "corr_require": "Require Import MS.Corr.C10.",
     "agrees": "C10.agrees",
     "in_domain": "C10.in_domain",
